@@ -144,6 +144,22 @@ type c14Caller struct {
 	err       error
 	done      bool
 	lostReply bool // the response to this call was dropped by an injected write error
+	badParam  string // "" | "fails": a parameter that cannot be encoded - the call fails before anything is sent | "slow": encodes after a pause
+}
+
+// pausingParam is a call parameter whose encoding takes a while (the scheduler decides how long) and may fail.
+type pausingParam struct {
+	sc    *sched
+	token string
+	fail  bool
+}
+
+func (p pausingParam) MarshalJSON() ([]byte, error) {
+	p.sc.yield("encoding")
+	if p.fail {
+		return nil, errors.New("this parameter cannot be encoded")
+	}
+	return json.Marshal(p.token)
 }
 
 func c14Case(rt *rapid.T, rec *vt.Rec) {
@@ -187,13 +203,33 @@ func c14Case(rt *rapid.T, rec *vt.Rec) {
 		}
 		c := &c14Caller{side: side, token: fmt.Sprintf("%s%d", side, i), depth: rapid.IntRange(0, 3).Draw(rt, "depth")}
 		c.ctx, c.cancel = context.WithCancel(context.Background())
+		c.badParam = rapid.SampledFrom([]string{"", "", "", "", "fails", "slow"}).Draw(rt, "param")
 		callers = append(callers, c)
 		names = append(names, c.token)
 		fns = append(fns, func() {
 			var out string
-			c.err = r.Call(c.ctx, &out, "test_echo", c.token, c.depth)
+			var tok interface{} = c.token
+			if c.badParam != "" {
+				tok = pausingParam{sc: sc, token: c.token, fail: c.badParam == "fails"}
+			}
+			c.err = r.Call(c.ctx, &out, "test_echo", tok, c.depth)
 			c.result = out
 			c.done = true
+		})
+	}
+	// a further method may be registered on a serving side at any moment
+	lateRegistrations := rapid.IntRange(0, 2).Draw(rt, "lateRegistrations")
+	for i := 0; i < lateRegistrations; i++ {
+		srv, svc, side := srvA, svcA, "A"
+		if rapid.Bool().Draw(rt, "registerOnB") {
+			srv, svc, side = srvB, svcB, "B"
+		}
+		names = append(names, fmt.Sprintf("register%d@%s", i, side))
+		fns = append(fns, func() {
+			sc.yield("about to register")
+			if err := srv.RegisterMethod(fmt.Sprintf("test_extra%d", i), svc, "Echo"); err != nil {
+				panic(err)
+			}
 		})
 	}
 	wait := sc.start(names, fns)
@@ -457,6 +493,22 @@ func c14Case(rt *rapid.T, rec *vt.Rec) {
 		if c.depth > 0 {
 			nestedSeen = true
 		}
+		if c.badParam == "fails" {
+			if c.err == nil {
+				c14Fatalf(rt, "call %s has a parameter that cannot be encoded and returned no error (result %q)\nschedule:\n  %s", c.token, c.result, hist())
+			}
+			for d := 0; d <= c.depth; d++ {
+				for _, svc := range []*EchoSvc{svcA, svcB} {
+					svc.mu.Lock()
+					n := svc.handled[fmt.Sprintf("%s#%d", c.token, d)]
+					svc.mu.Unlock()
+					if n != 0 {
+						c14Fatalf(rt, "call %s was never sent (its parameter cannot be encoded) but a request for it was handled\nschedule:\n  %s", c.token, hist())
+					}
+				}
+			}
+			continue
+		}
 		switch {
 		case c.err == nil:
 			if c.result != want {
@@ -488,6 +540,9 @@ func c14Case(rt *rapid.T, rec *vt.Rec) {
 	if cancels == 0 {
 		// every level of every call was handled exactly once
 		for _, c := range callers {
+			if c.badParam == "fails" {
+				continue
+			}
 			for d := c.depth; d >= 0; d-- {
 				svc := svcB
 				if (c.side == "A") != ((c.depth-d)%2 == 0) {
@@ -518,11 +573,17 @@ func c14Case(rt *rapid.T, rec *vt.Rec) {
 		c14Fatalf(rt, "goroutines still blocked a (virtual) day after both ends closed:\n%s\nschedule:\n  %s", strings.Join(left, "\n\n"), hist())
 	}
 	nontrivial := len(callers) >= 2 && (reordered || cancels > 0 || nestedSeen || writeFaults > 0)
+	nBadParam := 0
+	for _, c := range callers {
+		if c.badParam == "fails" {
+			nBadParam++
+		}
+	}
 	var depths []int
 	for _, c := range callers {
 		depths = append(depths, c.depth)
 	}
-	rec.Case(fmt.Sprintf("ctl|%d|%d|%v|%v", nA, nB, depths, trace), nontrivial, []string{"ctl", fmt.Sprintf("ctl:cancels:%d", cancels), fmt.Sprintf("ctl:write-faults:%d", writeFaults), fmt.Sprintf("ctl:default-client:%v", defaultClient), fmt.Sprintf("ctl:early-reply:%v", earlyReply), fmt.Sprintf("ctl:nested:%v", nestedSeen), fmt.Sprintf("ctl:stall-resolved-on-second-look:%v", falseStalls > 0)}, func() interface{} {
+	rec.Case(fmt.Sprintf("ctl|%d|%d|%v|%v", nA, nB, depths, trace), nontrivial, []string{"ctl", fmt.Sprintf("ctl:cancels:%d", cancels), fmt.Sprintf("ctl:write-faults:%d", writeFaults), fmt.Sprintf("ctl:default-client:%v", defaultClient), fmt.Sprintf("ctl:early-reply:%v", earlyReply), fmt.Sprintf("ctl:nested:%v", nestedSeen), fmt.Sprintf("ctl:stall-resolved-on-second-look:%v", falseStalls > 0), fmt.Sprintf("ctl:unencodable-param:%v", nBadParam > 0), fmt.Sprintf("ctl:late-registration:%v", lateRegistrations > 0)}, func() interface{} {
 		return map[string]interface{}{"kind": "controlled delivery", "callers_A": nA, "callers_B": nB, "depths": depths, "schedule": trace}
 	})
 }
